@@ -1,5 +1,6 @@
 import KM.Props.C14Go
 import KM.Gen.GoVip
+import KM.Gen.GoBoot
 /-! # C05 — when `validateUserTOTP` says yes, on the TRANSLATED source (go2lean); see `KM/Props/C14Go.lean` -/
 namespace KM.Totp
 open KM.Go KM.GoTypes
@@ -256,5 +257,87 @@ example : (KM.Gen.GoVip.VIPPollCheckHandler (exPoll ['b', 'o', 'b']) true "POST"
       [.askVip ['t', 'x'], .upgrade ['b', 'o', 'b'] 18, .publish ['b', 'o', 'b'], .status 200] ∧
     (KM.Gen.GoVip.VIPPollCheckHandler (exPoll ['a', 'l', 'i', 'c', 'e']) true "POST".toList).2 = [.fail 412] := by
   decide
+
+end KM.Totp
+
+/-! ### `BootstrapOtpAuthHandler` from the profile load to the cookie upgrade, as translated -/
+namespace KM.Boot
+open KM.Go KM.GoTypes
+
+/-- the translated block in normal form -/
+theorem core_eq (ext : BootExt) (a : authInfo) :
+    (KM.Gen.GoBoot.bootstrapOtpCore ext a).2 =
+      match ext.loadProfile a.Username with
+      | (_, _, _, some _) => [.fail 500]
+      | (_, _, true, none) => [.fail 503]
+      | (p, _, false, none) =>
+        if ext.noHash (ext.storedHash p false) = true then [.fail 412]
+        else if ext.hashMatches (ext.storedHash p false) = false then [.fail 401]
+        else match ext.saveResult a.Username { p with BootstrapOTP := 0 } with
+          | some _ => [.saveProfile a.Username { p with BootstrapOTP := 0 }, .fail 500]
+          | none =>
+            match ext.upgradeResult a.Username (a.AuthType ||| 256) with
+            | (_, some _) => [.saveProfile a.Username { p with BootstrapOTP := 0 }, .upgrade a.Username (a.AuthType ||| 256), .fail 500]
+            | (_, none) => [.saveProfile a.Username { p with BootstrapOTP := 0 }, .upgrade a.Username (a.AuthType ||| 256), .reached] := by
+  obtain ⟨loadProfile, storedHash, noHash, hashMatches, saveResult, upgradeResult⟩ := ext
+  unfold KM.Gen.GoBoot.bootstrapOtpCore
+  dsimp -iota only
+  rcases hl : loadProfile a.Username with ⟨p, b, fc, _ | e⟩
+  · cases fc with
+    | true => simp
+    | false =>
+      cases hn : noHash (storedHash p false) with
+      | true => simp [hn]
+      | false =>
+        cases hm : hashMatches (storedHash p false) with
+        | false => simp [hn, hm]
+        | true =>
+          cases hs : saveResult a.Username { BootstrapOTP := 0 } with
+          | some e => simp [hn, hm, hs]
+          | none =>
+            rcases hu : upgradeResult a.Username (a.AuthType ||| 256) with ⟨x, _ | e⟩ <;> simp [hn, hm, hs, hu]
+  · simp
+
+end KM.Boot
+
+namespace KM.Totp
+open KM.Go KM.GoTypes
+
+/-- **a bootstrap OTP is spent before it raises the session**, on the translated source: the cookie upgrade is reached
+only with a profile read from the PRIMARY store (not the cache), a stored unexpired OTP whose hash the presented value
+matches, and only after the profile with the OTP record CLEARED was saved successfully — the save is the effect right
+before the upgrade; and what is raised is the authenticated user's cookie to `level | BootstrapOTP` -/
+theorem c05_go_bootstrap_consumed_first (ext : BootExt) (a : authInfo) (u : Str) (lvl : Nat)
+    (h : BootEffect.upgrade u lvl ∈ (KM.Gen.GoBoot.bootstrapOtpCore ext a).2) :
+    ∃ p b, ext.loadProfile a.Username = (p, b, false, none) ∧
+      ext.noHash (ext.storedHash p false) = false ∧ ext.hashMatches (ext.storedHash p false) = true ∧
+      ext.saveResult a.Username { p with BootstrapOTP := 0 } = none ∧
+      u = a.Username ∧ lvl = a.AuthType ||| 256 ∧
+      ∃ rest, (KM.Gen.GoBoot.bootstrapOtpCore ext a).2 =
+        [.saveProfile a.Username { p with BootstrapOTP := 0 }, .upgrade u lvl] ++ rest := by
+  rw [KM.Boot.core_eq] at h ⊢
+  rcases hl : ext.loadProfile a.Username with ⟨p, b, fc, _ | e⟩
+  · rw [hl] at h
+    cases fc with
+    | true => simp at h
+    | false =>
+      dsimp only at h ⊢
+      cases hn : ext.noHash (ext.storedHash p false) with
+      | true => simp [hn] at h
+      | false =>
+        cases hm : ext.hashMatches (ext.storedHash p false) with
+        | false => simp [hn, hm] at h
+        | true =>
+          cases hs : ext.saveResult a.Username { BootstrapOTP := 0 } with
+          | some e => simp [hn, hm, hs] at h
+          | none =>
+            rcases hu : ext.upgradeResult a.Username (a.AuthType ||| 256) with ⟨x, _ | e⟩
+            · simp [hn, hm, hs, hu] at h
+              obtain ⟨rfl, rfl⟩ := h
+              exact ⟨p, b, rfl, by first | rfl | assumption, by first | rfl | assumption, by first | rfl | assumption, rfl, rfl, [.reached], by simp [hn, hm, hs, hu]⟩
+            · simp [hn, hm, hs, hu] at h
+              obtain ⟨rfl, rfl⟩ := h
+              exact ⟨p, b, rfl, by first | rfl | assumption, by first | rfl | assumption, by first | rfl | assumption, rfl, rfl, [.fail 500], by simp [hn, hm, hs, hu]⟩
+  · rw [hl] at h; simp at h
 
 end KM.Totp
